@@ -490,3 +490,14 @@ def _affix(kind):
 
 for _k in ("endswith", "startswith"):
     _affix(_k)
+
+
+# any other sympy assumption / class flag `expr.is_<something>`: ASSUMED to be a function of the expression (read as "is True")
+def _sym_flag(ctx, st, obj, attr):
+    if attr.startswith("is_"):
+        ctx.assumed_used.add(f"sympy attribute .{attr} is a function of the expression")
+        return SV(TBool, core.uf("sp." + attr, S, z3.BoolSort())(obj.t))
+    return None
+
+
+registry.SORT_ATTR_FALLBACK["Sym"] = _sym_flag
